@@ -249,3 +249,66 @@ def differential(src, cfg, mkenv=default_env, globals_cmp=True, injected=None, k
             o.status, o.detail = r
             return o
     return o
+
+
+# ---------------------------------------------------------------- a defect of the *running* interpreter, not of the text
+
+SCOPES_LOG_PRELUDE = (
+    "def log(*a):\n    a = list(a)\n    v = a[-1]\n"
+    "    if callable(v) or isinstance(v, type) or type(v).__name__ == 'module':\n        a[-1] = type(v).__name__\n"
+    "    print(tuple(map(repr, a)))\n    return a[-1]\n")
+
+
+def text_is_right_on_neighbour_runtimes(src, out, pre=None, runtimes=("3.10", "3.11")):
+    """CPython 3.12.1 and 3.13.0 miscompile *correct* text of one shape (comprehension inlining, PEP 709): two sibling inlined
+    comprehensions in one function, the first binds a name that the second reads as a global / free variable
+    (`lambda: [[x for x in [1]], [x for t in [2]]]` -> UnboundLocalError; 3.10 and 3.11, which give every comprehension its
+    own function, evaluate it correctly, and PEP 709 claims unchanged semantics). The property is about the emitted text,
+    so before such an UnboundLocalError is counted as a violation the same (source, text) pair is run by the real 3.10 and
+    3.11 binaries: True iff on each of them the original runs and the text prints exactly what the original prints.
+    None if an interpreter is missing."""
+    import json
+    import os
+    import shutil
+    import subprocess
+    import tempfile
+    from . import envs
+    runner = os.path.join(envs.LIB, "olverif", "runtime_runner.py")
+    work = tempfile.mkdtemp(prefix="olverif-nb-")
+    try:
+        rp = os.path.join(work, "r.json")
+        json.dump([{"id": 0, "src": src, "out": out, "pre": pre}], open(rp, "w"))
+        for v in runtimes:
+            py = envs.interpreter(v)
+            if not py:
+                return None
+            res = os.path.join(work, "o-%s.json" % v)
+            try:
+                subprocess.run([py, runner, rp, res], capture_output=True, timeout=120)
+                r = json.load(open(res))["results"][0]
+            except Exception:
+                return None
+            if r.get("orig") != "ok" or not r.get("same"):
+                return False
+        return True
+    finally:
+        shutil.rmtree(work, ignore_errors=True)
+
+
+def interpreter_defect_312(o, src, pre=None):
+    """-> inconclusive reason or None. Only for an UnboundLocalError raised by a >= 3.12 interpreter while evaluating a text
+    that contains the sibling-comprehension shape (input-side predicate on the emitted tree) AND that the 3.10 and 3.11
+    binaries evaluate exactly like the original."""
+    import ast
+    import sys
+    from . import findings
+    if sys.version_info[:2] < (3, 12) or o.status != "eval-raise:UnboundLocalError" or not o.out:
+        return None
+    try:
+        if not findings.cpython_sibling_inlined_comprehensions(ast.parse(o.out, mode="eval")):
+            return None
+    except (SyntaxError, ValueError, RecursionError, MemoryError):
+        return None
+    if text_is_right_on_neighbour_runtimes(src, o.out, pre) is True:
+        return "reference-model-defect:cpython>=3.12 sibling inlined comprehensions (text is right on 3.10 and 3.11)"
+    return None
